@@ -743,6 +743,11 @@ def run_render_method(model, cfg, func, token_cls, facts, extra_hooks=None, max_
         if extra_hooks:
             extra_hooks(it)
         renderer = clone_obj(cfg.obj)
+        st = renderer.attrs.get('_suppress_ptag_stack')
+        if isinstance(st, list) and st:
+            # the flag on top of the stack is set by the caller (render_list): unknown here
+            st[-1] = Cond(('suppress-ptag',))
+            renderer.attrs['_stack_in'] = list(st)
         tok = TokVal(token_cls, facts)
         try:
             if func.kind == 'staticmethod':
